@@ -37,6 +37,9 @@ func init() {
 
 var forbiddenPkgs = map[string]bool{"unsafe": true, "syscall": true, "os/exec": true}
 
+// c13FixFi: the function holding the overrides (fixStdlib), for the guards of each override.
+var c13FixFi *FuncInfo
+
 func runC13(c *Config, r *Report) {
 	ic, err := loadInterp(c, true)
 	if err != nil {
@@ -48,7 +51,8 @@ func runC13(c *Config, r *Report) {
 		r.Errorf("%v", err)
 		return
 	}
-	_, ovs := fixStdlibOverrides(ic, r)
+	fixFi, ovs := fixStdlibOverrides(ic, r)
+	c13FixFi = fixFi
 	if ovs == nil {
 		return
 	}
@@ -817,6 +821,59 @@ func c13Std(c *Config, ic *IC, r *Report, stdlibPk *packages.Package, tb map[str
 				}
 			}
 			r.Check(!same, "R13.5", key, ic.pos(o.stmt.Pos()), "overridden per interpreter", "fixStdlib re-binds "+key+" to the original symbol")
+			// the override is installed whatever the streams are: no condition on the way mentions
+			// the interpreter's streams or arguments (directly, through a local copy, or through
+			// the result of a type assertion on them made in the if's init statement)
+			if fixFi := c13FixFi; fixFi != nil {
+				streamFld := map[*types.Var]bool{}
+				for _, fn := range []string{"stdin", "stdout", "stderr", "args"} {
+					if v := ic.field("opt", fn); v != nil {
+						streamFld[v] = true
+					}
+				}
+				derived := map[types.Object]bool{}
+				mentions := func(e ast.Node) bool {
+					found := false
+					ast.Inspect(e, func(q ast.Node) bool {
+						switch y := q.(type) {
+						case *ast.SelectorExpr:
+							if v := selField(ic.Info, y); v != nil && streamFld[v] {
+								found = true
+							}
+						case *ast.Ident:
+							if derived[ic.Info.ObjectOf(y)] {
+								found = true
+							}
+						}
+						return true
+					})
+					return found
+				}
+				for pass := 0; pass < 3; pass++ {
+					ast.Inspect(fixFi.Decl.Body, func(q ast.Node) bool {
+						if as, ok := q.(*ast.AssignStmt); ok {
+							for _, rh := range as.Rhs {
+								if mentions(rh) {
+									for _, l := range as.Lhs {
+										if id := identOf(l); id != nil && ic.Info.ObjectOf(id) != nil {
+											derived[ic.Info.ObjectOf(id)] = true
+										}
+									}
+								}
+							}
+						}
+						return true
+					})
+				}
+				cond := ""
+				for _, g := range pathGuards(fixFi.Decl.Body, o.stmt) {
+					if mentions(g.cond) {
+						cond = types.ExprString(g.cond)
+					}
+				}
+				r.Check(cond == "", "R13.5", key+"/unconditional", ic.pos(o.stmt.Pos()), "installed whatever the streams or arguments are",
+					"fixStdlib overrides "+key+" only under "+cond+": for the other interpreters the table keeps the host's function, which works on the process's "+what+" - output written to, or input read from, the host's streams instead of the ones given in Options")
+			}
 		}
 	}
 	streamRule("fmt", fmtP, map[string]bool{"os.Stdout": true, "os.Stdin": true, "os.Stderr": true}, "os.Stdout/os.Stdin", "")
